@@ -587,6 +587,15 @@ def clauseBody : Clause → String
   | .rejectedF2_02 => "batch_exactly_once: a well-formed batch containing a notification is rejected as a duplicate id; the read error tears the session down (F2)"
   | .rejected02 => "batch_exactly_once: a well-formed batch is rejected by Read"
   | .dtWrite => "decode_total: ioConn.Write panicked"
+  | .retryResponsesAltered =>
+    "encode_decode_preserves: the retried request does not carry the fulfilled inputResponses as given (multi round trip)"
+  | .retryStateAltered => "encode_decode_preserves: the retried request does not carry the requestState as given (multi round trip)"
+  | .retryNotDecodedAlike =>
+    "encode_decode_preserves: the server's decoder does not read the retried request's inputResponses / requestState as the keys, kinds and state sent"
+  | .toolAnnHintLost => "required_members_present: ToolAnnotations written without readOnlyHint / idempotentHint (default encoding)"
+  | .toolAnnChanged => "content_roundtrip: ToolAnnotations did not come back as themselves from marshal → unmarshal"
+  | .cloneAliased => "content_roundtrip: a change to a capabilities clone (or to the original) shows in the other's encoding: clone shares a pointer or map"
+  | .cloneDiffers => "content_roundtrip: the encoding of a capabilities clone differs from the original's"
   | .refRefused => "content_roundtrip: CompleteReference.MarshalJSON refused a consistent reference"
   | .refChanged => "content_roundtrip: a CompleteReference did not come back as itself from marshal → unmarshal"
   | .refInconsistentWritten =>
@@ -1099,6 +1108,53 @@ def stepWire (d : DState) (toks : List String) (impl : String) : DState × Verdi
         (match obs with | .crash _ => some .writePanic02 | _ => none)
       ({ d with io := io', mon := mon' }, { model := model, violated := viol.map (clauseText d.pid) })
     | _ => bad d
+  | "mrtr.retry" :: _method :: st :: r =>
+    -- `setMultiRoundTripRetryParams` on a request, then the params marshalled and decoded again:
+    -- `<J inputResponses|-> <J requestState|-> | ok s<state> (s<key> <kind>)*` / `… | err`
+    let rec entries (fuel : Nat) (ts : List String) (acc : List (Bytes × JVal)) : Option (List (Bytes × JVal)) :=
+      match fuel, ts with
+      | _, [] => some acc.reverse
+      | 0, _ => none
+      | fuel + 1, k :: _kind :: ts' =>
+        (match pStr [k], pJ ts' with
+          | some (k, []), some (v, r') => entries fuel r' ((k, v) :: acc)
+          | _, _ => none)
+      | _, _ => none
+    match pStr [st], entries (r.length + 1) r [] with
+    | some (state, []), some rs =>
+      let showK : RespKind → String | .roots => "roots" | .elicit => "elicit" | .sampling => "sampling"
+      let ps := retryParams [] rs state
+      let model := showOJ (lookup retry_InputResponses_name ps) ++ " " ++ showOJ (lookup retry_RequestState_name ps) ++ " | " ++
+        (match decodeRetry ps with
+          | .ok (_, s) => " ".intercalate (["ok", "s" ++ hexB s] ++ (sortMembers rs).flatMap (fun p => ["s" ++ hexB p.1, showK (kindD p.2)]))
+          | .error _ => "err")
+      let obs : RetryObs := match impl.splitOn " | " with
+        | [a, b] =>
+          let (sr, ss) : Option JVal × Option JVal := match words a with
+            | "-" :: rest => (none, match pJ rest with | some (v, []) => some v | _ => none)
+            | ws => (match pJ ws with
+              | some (v, rest) => (some v, match pJ rest with | some (w, []) => some w | _ => none)
+              | none => (none, none))
+          let back := match words b with
+            | "ok" :: s :: ks =>
+              (match pStr [s] with
+                | some (s, []) =>
+                  let rec kinds (fuel : Nat) (ts : List String) (acc : List (Bytes × RespKind)) : Option (List (Bytes × RespKind)) :=
+                    match fuel, ts with
+                    | _, [] => some acc.reverse
+                    | 0, _ => none
+                    | fuel + 1, k :: kd :: ts' =>
+                      (match pStr [k], (match kd with | "roots" => some RespKind.roots | "elicit" => some .elicit | "sampling" => some .sampling | _ => none) with
+                        | some (k, []), some kd => kinds fuel ts' ((k, kd) :: acc)
+                        | _, _ => none)
+                    | _, _ => none
+                  (kinds (ks.length + 1) ks []).map (fun l => (l, s))
+                | _ => none)
+            | _ => none
+          { sentResp := sr, sentState := ss, back := back }
+        | _ => { sentResp := none, sentState := none, back := none }
+      out19 d model (retryMonitor rs state obs)
+    | _, _ => bad d
   | ["ref.rt", t, n, u] =>
     -- `json.Marshal(&CompleteReference{…})`, then `json.Unmarshal` of the text: `refused <class>` / `ok <J> | ok s s s` / `ok <J> | err <class>`
     match pStr [t], pStr [n], pStr [u] with
